@@ -2,7 +2,10 @@
 
 wrapper entities around the REAL std.Fifo / std.Stack -> real compiler -> VHDL -> parsed design;
 per configuration a kernel-checked theorem: for all admissible input sequences the design's trace equals the
-abstract queue / stack specification (Models/StdSpecs.v)."""
+abstract queue / stack specification (Models/StdSpecs.v); and a second one: ... equals the trace of the AS-CODED
+model of that size (Models/Ring.v: ring_step N / stackm_step N - memory, index registers and index arithmetic as
+written in cohdl/std/utility.py), about which Models/RingProofs.v proves for ALL N that it refines the abstract
+specification (C14_*_all_N theorems of Props/C14_Properties.v)."""
 from __future__ import annotations
 import common
 import explore as X
@@ -198,5 +201,8 @@ def run(ck: common.Check, replay=None):
                       "all admissible input sequences; all are non-trivial")
     ck.trusted += ["fail-closed VHDL reader (harness/vhdl_reader.py)", "Vhdl.Sem (modelled VHDL-93 simulation cycle)",
                    "queue_step/stack_step (Models/StdSpecs.v) as the rendering of the documented behaviour"]
+    ck.cov["all_sizes"] = ("Models/RingProofs.v: for every N >= 2 (Fifo) / N >= 1 (Stack, both modes), every data width and every "
+                           "admissible input sequence the as-coded models ring_step N / stackm_step N have the trace of queue_step N / "
+                           "stack_step N; the '*_ring' cases tie these models to the emitted VHDL per configuration")
     ck.assumptions += ["configurations quantifier is enumerated up to the listed N and w; producer and consumer share one clock",
                        "memory cells without initial value start at zero (unobservable before the first push under the preconditions)"]
